@@ -11,7 +11,7 @@
 From Coq Require Import String Ascii List ZArith Bool Lia.
 Require Import Blots.Num Blots.gen.Builtins Blots.Ast Blots.Value Blots.Outcome Blots.Binop
                Blots.Env Blots.Eval Blots.Emit Blots.proofs.ValueInd Blots.proofs.ExprInd
-               Blots.proofs.EmitLit Blots.proofs.EmitSubst.
+               Blots.proofs.EmitLit Blots.proofs.EmitSubst Blots.proofs.Closures.
 Import ListNotations.
 Open Scope list_scope.
 
@@ -268,23 +268,33 @@ Section Sound.
     apply andb_prop in Hsv_emit as [A B]. destruct (String.eqb x k); [intros E; now inversion E; subst|auto].
   Qed.
 
-  (* names bound in L are not inlined; on the others the inlining scope is the captured scope *)
-  Definition Inv (L : frames) (m : smap) : Prop :=
-    frames_lf L = true /\
-    forall x, match lookup L x with
+  (* The two runs use local frames L1 / L2 that agree on the names the body can mention
+     ([bound]); names bound there are not inlined; on the other names of [bound] the inlining
+     scope is the captured scope; names the evaluator never looks up are not inlined. *)
+  Definition Inv (bound : list string) (L1 : frames) (m : smap) : Prop :=
+    forall x, mem x bound = true ->
+              match lookup L1 x with
               | Some _ => rec_get m x = None
               | None => rec_get m x = option_map lit (rec_get sv x)
               end.
-  Definition bound_ok (bound : list string) (L : frames) : Prop :=
-    forall x, mem x bound = true -> lookup L x <> None \/ rec_get sv x <> None.
+  Definition msp (m : smap) : Prop :=
+    (forall x, special_name x = true -> rec_get m x = None) /\
+    (forall x a, rec_get m x = Some a -> exists v, a = lit v).
+  Definition bound_ok (bound : list string) (L1 : frames) : Prop :=
+    forall x, mem x bound = true ->
+      (exists v, lookup L1 x = Some v /\ lf v = true) \/ (lookup L1 x = None /\ rec_get sv x <> None).
+  Definition agree (bound : list string) (L1 L2 : frames) : Prop :=
+    forall x v, mem x bound = true -> lookup L1 x = Some v -> lookup L2 x = Some v.
+  Definition Env (bound : list string) (L1 L2 : frames) (m : smap) : Prop :=
+    Inv bound L1 m /\ msp m /\ bound_ok bound L1 /\ agree bound L1 L2.
 
-  Definition Sim (L : frames) (st : store) (e : expr) (m : smap) : Prop :=
-    exists r st', evalE (st, F1 L) e = (r, (st', F1 L)) /\
-                  evalE (st, F2 L) (subst true m e) = (r, (st', F2 L)) /\
+  Definition Sim (L1 L2 : frames) (st : store) (e : expr) (m : smap) : Prop :=
+    exists r st', evalE (st, F1 L1) e = (r, (st', F1 L1)) /\
+                  evalE (st, F2 L2) (subst true m e) = (r, (st', F2 L2)) /\
                   (forall v, r = Ok v -> lf v = true).
   Definition Q (e : expr) : Prop :=
-    first_order_body e = true -> forall L m bound st,
-      Inv L m -> bound_ok bound L -> free_vars e bound = [] -> Sim L st e m.
+    first_order_body e = true -> forall L1 L2 m bound st,
+      Env bound L1 L2 m -> free_vars e bound = [] -> Sim L1 L2 st e m.
   Definition P (e : expr) : Prop := Q e /\ (forall x v, e = EAssign x v -> Q v).
 
   Lemma lookup_F1 L x : lookup (F1 L) x =
@@ -294,34 +304,30 @@ Section Sound.
 
   (* an identifier (also used for record shorthand): what the original finds is what the
      inlined expression evaluates to *)
-  Lemma ident_sim L m bound x : Inv L m -> bound_ok bound L ->
-    mem x bound = true ->
-    exists v, lookup (F1 L) x = Some v /\ lf v = true /\
+  Lemma ident_sim L1 L2 m bound x : Env bound L1 L2 m -> mem x bound = true ->
+    exists v, lookup (F1 L1) x = Some v /\ lf v = true /\
       match rec_get m x with
       | Some a => a = lit v /\ emittable_gen v = true
-      | None => lookup (F2 L) x = Some v
+      | None => lookup (F2 L2) x = Some v
       end.
   Proof.
-    intros [HL HI] HB Hm. specialize (HI x). rewrite lookup_F1, lookup_app.
-    destruct (lookup L x) eqn:EL.
-    - exists v. rewrite HI. repeat split; auto. eapply lf_lookup; eauto.
-    - destruct (rec_get sv x) eqn:ES.
-      + exists v. rewrite HI. cbn. pose proof (sv_get_emit _ _ ES). repeat split; auto.
-        now apply emittable_gen_lf.
-      + destruct (HB x Hm); congruence.
+    intros (HI & _ & HB & HA) Hm. specialize (HI x Hm).
+    rewrite lookup_F1, lookup_app. destruct (HB x Hm) as [(v & EL & Hv)|[EL ES]].
+    - rewrite (HA x v Hm EL). rewrite EL in *. exists v. rewrite HI. auto.
+    - rewrite EL in *. destruct (rec_get sv x) eqn:E; [|congruence].
+      exists v. rewrite HI. cbn. pose proof (sv_get_emit _ _ E). repeat split; auto.
+      now apply emittable_gen_lf.
   Qed.
 
   Ltac fin := eexists; eexists; split; [reflexivity|split; [reflexivity|]].
 
   Lemma Q_id x : Q (EId x).
   Proof.
-    intros _ L m bound st HI HB HFV. cbn [free_vars] in HFV.
+    intros _ L1 L2 m bound st HE HFV. cbn [free_vars] in HFV.
     unfold Sim. cbn [subst].
     destruct (special_name x) eqn:Hsp.
-    - (* never looked up, never captured *)
-      assert (Hm : rec_get m x = None).
-      { destruct HI as [_ HI]. specialize (HI x). destruct (lookup L x); [exact HI|].
-        rewrite HI, (Hsv_special x Hsp). reflexivity. }
+    - (* never looked up, never inlined *)
+      assert (Hm : rec_get m x = None) by (destruct HE as (_ & [Hs _] & _); exact (Hs x Hsp)).
       rewrite Hm. cbn [Eval.evalE]. unfold special_name in Hsp.
       destruct (String.eqb x "infinity" || String.eqb x "inf")%bool eqn:E1.
       + fin. intros v E; inversion E; reflexivity.
@@ -329,7 +335,7 @@ Section Sound.
     - assert (Hmem : mem x bound = true).
       { unfold special_name in Hsp. destruct (mem x bound); [reflexivity|].
         cbn [orb] in HFV. rewrite Hsp in HFV. discriminate. }
-      destruct (ident_sim L m bound x HI HB Hmem) as (v & E1 & Hlf & Hm).
+      destruct (ident_sim L1 L2 m bound x HE Hmem) as (v & E1 & Hlf & Hm).
       unfold special_name in Hsp. apply orb_false_elim in Hsp as [Hsp E3].
       destruct (rec_get m x) eqn:Em.
       + destruct Hm as [-> Hem]. cbn [Eval.evalE snd fst]. rewrite Hsp, E3, E1.
@@ -342,42 +348,42 @@ Section Sound.
   (* ---- lists of sub-expressions ---- *)
   Lemma evalCL_sim items : Forall (fun c => Q (cnode c)) items ->
     Forall (fun c => first_order_body (cnode c) = true) items ->
-    forall L m bound, Inv L m -> bound_ok bound L ->
+    forall L1 L2 m bound, Env bound L1 L2 m ->
     Forall (fun c => free_vars (cnode c) bound = []) items ->
     forall st, exists r st',
-      evalCL evalE (st, F1 L) items = (r, (st', F1 L)) /\
-      evalCL evalE (st, F2 L) (subst_items m items) = (r, (st', F2 L)) /\
+      evalCL evalE (st, F1 L1) items = (r, (st', F1 L1)) /\
+      evalCL evalE (st, F2 L2) (subst_items m items) = (r, (st', F2 L2)) /\
       (forall vs, r = Ok vs -> lfs vs = true).
   Proof.
-    intros HQ. induction HQ as [|[a n t] l Hn Hl IH]; intros Hf L m bound HI HB HV st.
+    intros HQ. induction HQ as [|[a n t] l Hn Hl IH]; intros Hf L1 L2 m bound HE HV st.
     - cbn. fin. intros vs E; inversion E; reflexivity.
     - pose proof (Forall_inv Hf) as Hf1. pose proof (Forall_inv_tail Hf) as Hf2.
       pose proof (Forall_inv HV) as HV1. pose proof (Forall_inv_tail HV) as HV2.
       cbn [cnode] in Hn, Hf1, HV1. cbn [evalCL subst_items].
-      destruct (Hn Hf1 L m bound st HI HB HV1) as (r & st1 & E1 & E2 & Hlf). rewrite E1, E2.
+      destruct (Hn Hf1 L1 L2 m bound st HE HV1) as (r & st1 & E1 & E2 & Hlf). rewrite E1, E2.
       destruct r as [v| | | |]; try (cbn [cast_fail]; fin; discriminate).
-      destruct (IH Hf2 L m bound HI HB HV2 st1) as (r2 & st2 & E3 & E4 & Hlf2). rewrite E3, E4.
+      destruct (IH Hf2 L1 L2 m bound HE HV2 st1) as (r2 & st2 & E3 & E4 & Hlf2). rewrite E3, E4.
       destruct r2 as [vs| | | |]; try (fin; discriminate).
       fin. intros ws E; inversion E; subst. cbn. rewrite (Hlf v eq_refl). exact (Hlf2 vs eq_refl).
   Qed.
 
   Lemma evalL_sim args : Forall Q args ->
     Forall (fun a => first_order_body a = true) args ->
-    forall L m bound, Inv L m -> bound_ok bound L ->
+    forall L1 L2 m bound, Env bound L1 L2 m ->
     Forall (fun a => free_vars a bound = []) args ->
     forall st, exists r st',
-      evalL evalE (st, F1 L) args = (r, (st', F1 L)) /\
-      evalL evalE (st, F2 L) (subst_args m args) = (r, (st', F2 L)) /\
+      evalL evalE (st, F1 L1) args = (r, (st', F1 L1)) /\
+      evalL evalE (st, F2 L2) (subst_args m args) = (r, (st', F2 L2)) /\
       (forall vs, r = Ok vs -> lfs vs = true).
   Proof.
-    intros HQ. induction HQ as [|n l Hn Hl IH]; intros Hf L m bound HI HB HV st.
+    intros HQ. induction HQ as [|n l Hn Hl IH]; intros Hf L1 L2 m bound HE HV st.
     - cbn. fin. intros vs E; inversion E; reflexivity.
     - pose proof (Forall_inv Hf) as Hf1. pose proof (Forall_inv_tail Hf) as Hf2.
       pose proof (Forall_inv HV) as HV1. pose proof (Forall_inv_tail HV) as HV2.
       cbn [evalL subst_args].
-      destruct (Hn Hf1 L m bound st HI HB HV1) as (r & st1 & E1 & E2 & Hlf). rewrite E1, E2.
+      destruct (Hn Hf1 L1 L2 m bound st HE HV1) as (r & st1 & E1 & E2 & Hlf). rewrite E1, E2.
       destruct r as [v| | | |]; try (cbn [cast_fail]; fin; discriminate).
-      destruct (IH Hf2 L m bound HI HB HV2 st1) as (r2 & st2 & E3 & E4 & Hlf2). rewrite E3, E4.
+      destruct (IH Hf2 L1 L2 m bound HE HV2 st1) as (r2 & st2 & E3 & E4 & Hlf2). rewrite E3, E4.
       destruct r2 as [vs| | | |]; try (fin; discriminate).
       fin. intros ws E; inversion E; subst. cbn. rewrite (Hlf v eq_refl). exact (Hlf2 vs eq_refl).
   Qed.
@@ -389,45 +395,45 @@ Section Sound.
 
   Lemma evalRec_sim es : Forall Qentry es ->
     Forall (fun c => match cnode c with REntry k v => fob_entry k v = true end) es ->
-    forall L m bound, Inv L m -> bound_ok bound L ->
+    forall L1 L2 m bound, Env bound L1 L2 m ->
     Forall (fun c => match cnode c with REntry k v => fv_entry bound k v = [] end) es ->
     forall acc st, forallb (fun kv => lf (snd kv)) acc = true ->
     exists r st',
-      evalRecL evalE (st, F1 L) acc es = (r, (st', F1 L)) /\
-      evalRecL evalE (st, F2 L) acc (subst_entries m es) = (r, (st', F2 L)) /\
+      evalRecL evalE (st, F1 L1) acc es = (r, (st', F1 L1)) /\
+      evalRecL evalE (st, F2 L2) acc (subst_entries m es) = (r, (st', F2 L2)) /\
       (forall v, r = Ok v -> lf v = true).
   Proof.
-    intros HQ. induction HQ as [|[a [k v] t] l Hn Hl IH]; intros Hf L m bound HI HB HV acc st Hacc.
+    intros HQ. induction HQ as [|[a [k v] t] l Hn Hl IH]; intros Hf L1 L2 m bound HE HV acc st Hacc.
     - cbn. fin. intros w E; inversion E; subst. exact Hacc.
     - pose proof (Forall_inv Hf) as Hf1. pose proof (Forall_inv_tail Hf) as Hf2.
       pose proof (Forall_inv HV) as HV1. pose proof (Forall_inv_tail HV) as HV2.
       unfold Qentry in Hn. cbn [cnode] in Hn, Hf1, HV1. destruct Hn as [Hk Hv].
       cbn [evalRecL subst_entries]. destruct k as [key|ke|x|se]; cbn [subst_entry fob_entry fv_entry] in *.
       + (* static key *)
-        destruct (Hv Hf1 L m bound st HI HB HV1) as (r & st1 & E1 & E2 & Hlf). rewrite E1, E2.
+        destruct (Hv Hf1 L1 L2 m bound st HE HV1) as (r & st1 & E1 & E2 & Hlf). rewrite E1, E2.
         destruct r as [w| | | |]; try (fin; discriminate).
-        apply (IH Hf2 L m bound HI HB HV2). apply lf_rec_insert; auto.
+        apply (IH Hf2 L1 L2 m bound HE HV2). apply lf_rec_insert; auto.
       + (* computed key *)
         apply andb_prop in Hf1 as [Fa Fb]. apply app_eq_nil in HV1 as [Va Vb].
-        destruct (Hk Fa L m bound st HI HB Va) as (r & st1 & E1 & E2 & Hlf). rewrite E1, E2.
+        destruct (Hk Fa L1 L2 m bound st HE Va) as (r & st1 & E1 & E2 & Hlf). rewrite E1, E2.
         destruct r as [kv| | | |]; try (fin; discriminate).
         destruct (as_string kv) as [key| | | |]; try (cbn [cast_fail]; fin; discriminate).
-        destruct (Hv Fb L m bound st1 HI HB Vb) as (r2 & st2 & E3 & E4 & Hlf2). rewrite E3, E4.
+        destruct (Hv Fb L1 L2 m bound st1 HE Vb) as (r2 & st2 & E3 & E4 & Hlf2). rewrite E3, E4.
         destruct r2 as [w| | | |]; try (fin; discriminate).
-        apply (IH Hf2 L m bound HI HB HV2). apply lf_rec_insert; auto.
+        apply (IH Hf2 L1 L2 m bound HE HV2). apply lf_rec_insert; auto.
       + (* shorthand: the variable is looked up / its literal is written *)
         assert (Hmem : mem x bound = true) by (destruct (mem x bound); [reflexivity|discriminate]).
-        destruct (ident_sim L m bound x HI HB Hmem) as (w & E1 & Hlfw & Hm).
+        destruct (ident_sim L1 L2 m bound x HE Hmem) as (w & E1 & Hlfw & Hm).
         cbn [snd]. rewrite E1. destruct (rec_get m x) eqn:Em.
         * destruct Hm as [-> Hem]. cbn [evalRecL].
           rewrite (lit_roundtrip release binop_impl apply nanfix true w Hem).
-          apply (IH Hf2 L m bound HI HB HV2). apply lf_rec_insert; auto.
+          apply (IH Hf2 L1 L2 m bound HE HV2). apply lf_rec_insert; auto.
         * cbn [evalRecL snd]. rewrite Hm.
-          apply (IH Hf2 L m bound HI HB HV2). apply lf_rec_insert; auto.
+          apply (IH Hf2 L1 L2 m bound HE HV2). apply lf_rec_insert; auto.
       + (* spread *)
-        destruct (Hk Hf1 L m bound st HI HB HV1) as (r & st1 & E1 & E2 & Hlf). rewrite E1, E2.
+        destruct (Hk Hf1 L1 L2 m bound st HE HV1) as (r & st1 & E1 & E2 & Hlf). rewrite E1, E2.
         destruct r as [w| | | |]; try (fin; discriminate).
-        apply (IH Hf2 L m bound HI HB HV2). apply lf_rec_insert_all; auto.
+        apply (IH Hf2 L1 L2 m bound HE HV2). apply lf_rec_insert_all; auto.
         apply lf_record_spread_entries. auto.
   Qed.
 
@@ -479,17 +485,12 @@ Section Sound.
     - cbn. unfold str_to_ast. destruct (both_quotes s); [|reflexivity].
       destruct (split_dq s ""); [reflexivity|]. apply concat_ast_na. reflexivity.
   Qed.
-  Lemma Inv_lit L m x a : Inv L m -> rec_get m x = Some a -> exists v, a = lit v.
-  Proof.
-    intros [_ HI] E. specialize (HI x). destruct (lookup L x); [congruence|].
-    rewrite HI in E. destruct (rec_get sv x); cbn in E; [|discriminate]. inversion E. eauto.
-  Qed.
-  Lemma subst_not_assign L m e : Inv L m -> first_order_body e = true ->
+  Lemma subst_not_assign m e : msp m -> first_order_body e = true ->
     not_assign (subst true m e) = true.
   Proof.
-    intros HI Hf. destruct e; try reflexivity; try discriminate.
+    intros [_ Hm] Hf. destruct e; try reflexivity; try discriminate.
     - cbn. destruct (rec_get m x) eqn:E; [|reflexivity].
-      destruct (Inv_lit L m x e HI E) as [v ->]. apply lit_not_assign.
+      destruct (Hm x e E) as [v ->]. apply lit_not_assign.
     - cbn. destruct ret. reflexivity.
   Qed.
   Lemma name_lf st v x : lf v = true -> name_if_lambda st v x = st.
@@ -501,37 +502,45 @@ Section Sound.
     | (o, c1) => (cast_fail o, c1)
     end.
 
-  Lemma Inv_bind f L m x v : Inv ((FOwned, f) :: L) m -> lf v = true ->
-    Inv ((FOwned, (x, v) :: f) :: L) (smap_remove m x).
+  Lemma msp_remove m x : msp m -> msp (smap_remove m x).
   Proof.
-    intros [HL HI] Hv. split.
-    - cbn in *. now rewrite Hv.
-    - intros y. specialize (HI y). rewrite rec_get_remove. cbn [lookup lookup_frame] in *.
-      destruct (String.eqb y x); [reflexivity|]. exact HI.
+    intros [A B]. split.
+    - intros y Hy. rewrite rec_get_remove. destruct (String.eqb y x); auto.
+    - intros y a. rewrite rec_get_remove. destruct (String.eqb y x); [discriminate|apply B].
   Qed.
-  Lemma bound_ok_bind bound f L x v : bound_ok bound ((FOwned, f) :: L) ->
-    bound_ok (x :: bound) ((FOwned, (x, v) :: f) :: L).
+  Lemma Env_bind bound f1 f2 L1 L2 m x v : lf v = true ->
+    Env bound ((FOwned, f1) :: L1) ((FOwned, f2) :: L2) m ->
+    Env (x :: bound) ((FOwned, (x, v) :: f1) :: L1) ((FOwned, (x, v) :: f2) :: L2) (smap_remove m x).
   Proof.
-    intros HB y Hy. cbn [lookup lookup_frame]. destruct (String.eqb y x) eqn:E; [left; discriminate|].
-    cbn [mem existsb] in Hy. rewrite E in Hy. cbn [orb] in Hy. apply (HB y Hy).
+    intros Hv (HI & Hm & HB & HA). repeat split.
+    - intros y Hy. rewrite rec_get_remove. cbn [lookup lookup_frame].
+      destruct (String.eqb y x) eqn:E; [reflexivity|].
+      cbn [mem existsb] in Hy. rewrite E in Hy. exact (HI y Hy).
+    - apply (msp_remove m x Hm).
+    - apply (msp_remove m x Hm).
+    - intros y Hy. cbn [lookup lookup_frame]. destruct (String.eqb y x) eqn:E.
+      + left. exists v. auto.
+      + cbn [mem existsb] in Hy. rewrite E in Hy. exact (HB y Hy).
+    - intros y u Hy. cbn [lookup lookup_frame]. destruct (String.eqb y x) eqn:E; [auto|].
+      cbn [mem existsb] in Hy. rewrite E in Hy. exact (HA y u Hy).
   Qed.
 
   Lemma do_sim stmts : Forall (fun c => P (cnode c)) stmts ->
     forall ret, Q ret -> first_order_body ret = true -> fob_stmts stmts = true ->
-    forall f L m bound st, Inv ((FOwned, f) :: L) m -> bound_ok bound ((FOwned, f) :: L) ->
+    forall f1 f2 L1 L2 m bound st, Env bound ((FOwned, f1) :: L1) ((FOwned, f2) :: L2) m ->
       fv_do ret stmts bound = [] ->
-      exists r st' f',
-        do_body (st, (FOwned, f) :: F1 L) stmts ret = (r, (st', (FOwned, f') :: F1 L)) /\
-        do_body (st, (FOwned, f) :: F2 L) (subst_stmts stmts m)
-                (subst true (do_final_map true m stmts) ret) = (r, (st', (FOwned, f') :: F2 L)) /\
+      exists r st' f1' f2',
+        do_body (st, (FOwned, f1) :: F1 L1) stmts ret = (r, (st', (FOwned, f1') :: F1 L1)) /\
+        do_body (st, (FOwned, f2) :: F2 L2) (subst_stmts stmts m)
+                (subst true (do_final_map true m stmts) ret) = (r, (st', (FOwned, f2') :: F2 L2)) /\
         (forall v, r = Ok v -> lf v = true).
   Proof.
-    intros HP. induction HP as [|[a s t] l Hs Hl IH]; intros ret HQr Hfr Hfs f L m bound st HI HB HV.
+    intros HP. induction HP as [|[a s t] l Hs Hl IH]; intros ret HQr Hfr Hfs f1 f2 L1 L2 m bound st HE HV.
     - cbn [fv_do] in HV. unfold do_body. cbn [evalDoL subst_stmts do_final_map].
       rewrite na_do_step by (now apply fob_not_assign).
-      rewrite na_do_step by (eapply subst_not_assign; eauto).
-      destruct (HQr Hfr _ m bound st HI HB HV) as (r & st1 & E1 & E2 & Hlf).
-      cbn [app] in E1, E2. rewrite E1, E2. exists r, st1, f. auto.
+      rewrite na_do_step by (apply subst_not_assign; [apply HE|exact Hfr]).
+      destruct (HQr Hfr _ _ m bound st HE HV) as (r & st1 & E1 & E2 & Hlf).
+      cbn [app] in E1, E2. rewrite E1, E2. exists r, st1, f1, f2. auto.
     - cbn [cnode] in Hs. destruct Hs as [HQs HAs].
       destruct (assign_or_not s) as [(x & v & ->)|Hna].
       + (* x = v : binds x in the block frame; x is no longer inlined *)
@@ -539,28 +548,28 @@ Section Sound.
         cbn [fv_do] in HV. apply app_eq_nil in HV as [HV1 HV2].
         unfold do_body. cbn [evalDoL subst_stmts do_final_map do_step_map subst do_step].
         destruct (mem x do_assign_keywords).
-        { cbn [cast_fail]. exists Err, st, f. repeat split; discriminate. }
+        { cbn [cast_fail]. exists Err, st, f1, f2. repeat split; discriminate. }
         unfold assign_value.
-        destruct (HAs x v eq_refl Hf1 _ m bound st HI HB HV1) as (r & st1 & E1 & E2 & Hlf).
+        destruct (HAs x v eq_refl Hf1 _ _ m bound st HE HV1) as (r & st1 & E1 & E2 & Hlf).
         cbn [app] in E1, E2. rewrite E1, E2.
         destruct r as [w| | | |];
-          try (cbn [cast_fail]; eexists _, st1, f; repeat split; discriminate).
+          try (cbn [cast_fail]; eexists _, st1, f1, f2; repeat split; discriminate).
         unfold bind_value. cbn [snd fst insert_head]. rewrite (name_lf st1 w x (Hlf w eq_refl)).
-        destruct (IH ret HQr Hfr Hf2 ((x, w) :: f) L (smap_remove m x) (x :: bound) st1
-                     (Inv_bind f L m x w HI (Hlf w eq_refl)) (bound_ok_bind bound f L x w HB) HV2)
-          as (r & st2 & f2 & E3 & E4 & Hlf2).
-        unfold do_body in E3, E4. exists r, st2, f2. auto.
+        destruct (IH ret HQr Hfr Hf2 ((x, w) :: f1) ((x, w) :: f2) L1 L2 (smap_remove m x) (x :: bound) st1
+                     (Env_bind bound f1 f2 L1 L2 m x w (Hlf w eq_refl) HE) HV2)
+          as (r & st2 & g1 & g2 & E3 & E4 & Hlf2).
+        unfold do_body in E3, E4. exists r, st2, g1, g2. auto.
       + rewrite (na_fob a s t l Hna) in Hfs. apply andb_prop in Hfs as [Hf1 Hf2].
         rewrite (na_fv_do ret a s t l bound Hna) in HV. apply app_eq_nil in HV as [HV1 HV2].
         unfold do_body. cbn [evalDoL subst_stmts do_final_map]. rewrite (na_step_map m s Hna).
         rewrite na_do_step by exact Hna.
-        rewrite na_do_step by (eapply subst_not_assign; eauto).
-        destruct (HQs Hf1 _ m bound st HI HB HV1) as (r & st1 & E1 & E2 & Hlf).
+        rewrite na_do_step by (apply subst_not_assign; [apply HE|exact Hf1]).
+        destruct (HQs Hf1 _ _ m bound st HE HV1) as (r & st1 & E1 & E2 & Hlf).
         cbn [app] in E1, E2. rewrite E1, E2.
         destruct r as [w| | | |];
-          try (cbn [cast_fail]; eexists _, st1, f; repeat split; discriminate).
-        destruct (IH ret HQr Hfr Hf2 f L m bound st1 HI HB HV2) as (r & st2 & f2 & E3 & E4 & Hlf2).
-        unfold do_body in E3, E4. exists r, st2, f2. auto.
+          try (cbn [cast_fail]; eexists _, st1, f1, f2; repeat split; discriminate).
+        destruct (IH ret HQr Hfr Hf2 f1 f2 L1 L2 m bound st1 HE HV2) as (r & st2 & g1 & g2 & E3 & E4 & Hlf2).
+        unfold do_body in E3, E4. exists r, st2, g1, g2. auto.
   Qed.
 
   Lemma evalE_EDo c stmts a ret t :
@@ -571,116 +580,369 @@ Section Sound.
   Lemma pair_proj {A B C} (x : A * (B * C)) (a : A) (b : B) (c d : C) :
     x = (a, (b, c)) -> (fst x, (fst (snd x), d)) = (a, (b, d)).
   Proof. intros ->. reflexivity. Qed.
-  Lemma Inv_push L m : Inv L m -> Inv ((FOwned, []) :: L) m.
-  Proof. intros [HL HI]. split; [exact HL|]. intros x. exact (HI x). Qed.
-  Lemma bound_ok_push bound L : bound_ok bound L -> bound_ok bound ((FOwned, []) :: L).
-  Proof. intros HB x Hx. exact (HB x Hx). Qed.
+  Lemma Env_push bound L1 L2 m : Env bound L1 L2 m ->
+    Env bound ((FOwned, []) :: L1) ((FOwned, []) :: L2) m.
+  Proof. intros (HI & Hm & HB & HA). repeat split; try apply Hm; [intros x Hx; exact (HI x Hx)|intros x Hx; exact (HB x Hx)|intros x v Hx; exact (HA x v Hx)]. Qed.
 
   Ltac failcase := try (cbn [cast_fail]; fin; discriminate).
 
   Theorem sim_all : forall e, P e.
   Proof.
     induction e using expr_ind'; (split; [|intros x0 v0 Heq; try discriminate]).
-    - intros _ L m bound st _ _ _. cbn. fin. intros v E; inversion E; reflexivity.
-    - intros _ L m bound st _ _ _. cbn. fin. intros v E; inversion E; reflexivity.
-    - intros _ L m bound st _ _ _. cbn. fin. intros v E; inversion E; reflexivity.
-    - intros _ L m bound st _ _ _. cbn. fin. intros v E; inversion E; reflexivity.
+    - intros _ L1 L2 m bound st _ _. cbn. fin. intros v E; inversion E; reflexivity.
+    - intros _ L1 L2 m bound st _ _. cbn. fin. intros v E; inversion E; reflexivity.
+    - intros _ L1 L2 m bound st _ _. cbn. fin. intros v E; inversion E; reflexivity.
+    - intros _ L1 L2 m bound st _ _. cbn. fin. intros v E; inversion E; reflexivity.
     - apply Q_id.
     - intros Hf; discriminate.
-    - intros _ L m bound st _ _ _. cbn. fin. intros v E; inversion E; reflexivity.
+    - intros _ L1 L2 m bound st _ _. cbn. fin. intros v E; inversion E; reflexivity.
     - (* list *)
-      intros Hf L m bound st HI HB HV. unfold Sim. rewrite subst_EList. cbn [Eval.evalE].
+      intros Hf L1 L2 m bound st HE HV. unfold Sim. rewrite subst_EList. cbn [Eval.evalE].
       assert (HQ : Forall (fun c => Q (cnode c)) items).
       { eapply Forall_impl; [|exact H]. intros c Hc. exact (proj1 Hc). }
-      destruct (evalCL_sim items HQ (fob_EList items Hf) L m bound HI HB (fv_EList items bound HV) st)
+      destruct (evalCL_sim items HQ (fob_EList items Hf) L1 L2 m bound HE (fv_EList items bound HV) st)
         as (r & st1 & E1 & E2 & Hlf).
       rewrite E1, E2. cbn [fst snd]. fin.
       intros v E. destruct r; cbn in E; inversion E; subst. rewrite lf_list. apply lfs_flatten. auto.
     - (* record *)
-      intros Hf L m bound st HI HB HV. unfold Sim. rewrite subst_ERec. cbn [Eval.evalE].
+      intros Hf L1 L2 m bound st HE HV. unfold Sim. rewrite subst_ERec. cbn [Eval.evalE].
       assert (HQ : Forall Qentry entries).
       { eapply Forall_impl; [|exact H]. intros [a [k v] t] Hc. unfold Qentry. cbn in *.
         destruct Hc as [Hk Hv]. split; [|exact (proj1 Hv)]. destruct k; auto; exact (proj1 Hk). }
-      apply (evalRec_sim entries HQ (fob_ERec entries Hf) L m bound HI HB (fv_ERec entries bound HV)).
+      apply (evalRec_sim entries HQ (fob_ERec entries Hf) L1 L2 m bound HE (fv_ERec entries bound HV)).
       reflexivity.
     - intros Hf; discriminate.
     - (* conditional *)
-      intros Hf L m bound st HI HB HV. cbn [first_order_body] in Hf. cbn [free_vars] in HV.
+      intros Hf L1 L2 m bound st HE HV. cbn [first_order_body] in Hf. cbn [free_vars] in HV.
       apply andb_prop in Hf as [Hf Hf3]. apply andb_prop in Hf as [Hf1 Hf2].
       apply app_eq_nil in HV as [HV1 HV]. apply app_eq_nil in HV as [HV2 HV3].
       unfold Sim. cbn [subst Eval.evalE].
-      destruct (proj1 IHe1 Hf1 L m bound st HI HB HV1) as (r & st1 & E1 & E2 & Hlf). rewrite E1, E2.
+      destruct (proj1 IHe1 Hf1 L1 L2 m bound st HE HV1) as (r & st1 & E1 & E2 & Hlf). rewrite E1, E2.
       destruct r as [cv| | | |]; try (fin; discriminate).
       destruct (as_bool cv) as [[|]| | | |]; failcase.
-      + apply (proj1 IHe2 Hf2 L m bound st1 HI HB HV2).
-      + apply (proj1 IHe3 Hf3 L m bound st1 HI HB HV3).
+      + apply (proj1 IHe2 Hf2 L1 L2 m bound st1 HE HV2).
+      + apply (proj1 IHe3 Hf3 L1 L2 m bound st1 HE HV3).
     - (* do-block *)
-      intros Hf L m bound st HI HB HV. destruct ret as [rl ret rt]. cbn [cnode] in IHe.
+      intros Hf L1 L2 m bound st HE HV. destruct ret as [rl ret rt]. cbn [cnode] in IHe.
       rewrite fob_EDo in Hf. apply andb_prop in Hf as [Hfs Hfr]. rewrite fv_EDo in HV.
       unfold Sim. rewrite subst_EDo. rewrite !evalE_EDo. cbn [fst snd].
-      destruct (do_sim stmts H ret (proj1 IHe) Hfr Hfs [] L m bound st (Inv_push L m HI)
-                       (bound_ok_push bound L HB) HV) as (r & st1 & f1 & E1 & E2 & Hlf).
+      destruct (do_sim stmts H ret (proj1 IHe) Hfr Hfs [] [] L1 L2 m bound st (Env_push bound L1 L2 m HE) HV)
+        as (r & st1 & f1 & f2 & E1 & E2 & Hlf).
       exists r, st1. split; [exact (pair_proj _ _ _ _ _ E1)|split; [exact (pair_proj _ _ _ _ _ E2)|exact Hlf]].
     - intros Hf; discriminate.
     - inversion Heq; subst. exact (proj1 IHe).
     - intros Hf; discriminate.
     - (* call *)
-      intros Hf L m bound st HI HB HV. unfold Sim. rewrite subst_ECall. cbn [Eval.evalE].
+      intros Hf L1 L2 m bound st HE HV. unfold Sim. rewrite subst_ECall. cbn [Eval.evalE].
       destruct (fob_args _ _ Hf) as [Hff Hfa]. destruct (fv_args _ _ _ HV) as [HVf HVa].
-      destruct (proj1 IHe Hff L m bound st HI HB HVf) as (r & st1 & E1 & E2 & Hlf). rewrite E1, E2.
+      destruct (proj1 IHe Hff L1 L2 m bound st HE HVf) as (r & st1 & E1 & E2 & Hlf). rewrite E1, E2.
       destruct r as [fv| | | |]; try (fin; discriminate).
       assert (HQ : Forall Q args) by (eapply Forall_impl; [|exact H]; intros c Hc; exact (proj1 Hc)).
-      destruct (evalL_sim args HQ Hfa L m bound HI HB HVa st1) as (r2 & st2 & E3 & E4 & Hlf2).
+      destruct (evalL_sim args HQ Hfa L1 L2 m bound HE HVa st1) as (r2 & st2 & E3 & E4 & Hlf2).
       rewrite E3, E4. destruct r2 as [raw| | | |]; failcase.
       destruct (negb (is_function fv)); [fin; discriminate|].
       pose proof (Hlf fv eq_refl) as Hfv. pose proof (lfs_flatten raw (Hlf2 raw eq_refl)) as Hargs.
-      rewrite (Happ_ext (F1 L) (F2 L) fv fv (flatten_spreads raw) st2 Hfv Hfv Hargs).
-      destruct (apply (F2 L) fv fv (flatten_spreads raw) st2) as [res st3] eqn:EA.
-      fin. intros v E; subst. eapply (Happ_lf (F2 L)); eauto.
+      rewrite (Happ_ext (F1 L1) (F2 L2) fv fv (flatten_spreads raw) st2 Hfv Hfv Hargs).
+      destruct (apply (F2 L2) fv fv (flatten_spreads raw) st2) as [res st3] eqn:EA.
+      fin. intros v E; subst. eapply (Happ_lf (F2 L2)); eauto.
     - (* index *)
-      intros Hf L m bound st HI HB HV. cbn [first_order_body] in Hf. cbn [free_vars] in HV.
+      intros Hf L1 L2 m bound st HE HV. cbn [first_order_body] in Hf. cbn [free_vars] in HV.
       apply andb_prop in Hf as [Hf1 Hf2]. apply app_eq_nil in HV as [HV1 HV2].
       unfold Sim. cbn [subst Eval.evalE].
-      destruct (proj1 IHe1 Hf1 L m bound st HI HB HV1) as (r & st1 & E1 & E2 & Hlf). rewrite E1, E2.
+      destruct (proj1 IHe1 Hf1 L1 L2 m bound st HE HV1) as (r & st1 & E1 & E2 & Hlf). rewrite E1, E2.
       destruct r as [v| | | |]; try (fin; discriminate).
-      destruct (proj1 IHe2 Hf2 L m bound st1 HI HB HV2) as (r2 & st2 & E3 & E4 & Hlf2). rewrite E3, E4.
+      destruct (proj1 IHe2 Hf2 L1 L2 m bound st1 HE HV2) as (r2 & st2 & E3 & E4 & Hlf2). rewrite E3, E4.
       destruct r2 as [i| | | |]; try (fin; discriminate).
       fin. intros w E. eapply lf_access_val; eauto.
     - (* field *)
-      intros Hf L m bound st HI HB HV. cbn [first_order_body] in Hf. cbn [free_vars] in HV.
+      intros Hf L1 L2 m bound st HE HV. cbn [first_order_body] in Hf. cbn [free_vars] in HV.
       unfold Sim. cbn [subst Eval.evalE].
-      destruct (proj1 IHe Hf L m bound st HI HB HV) as (r & st1 & E1 & E2 & Hlf). rewrite E1, E2.
+      destruct (proj1 IHe Hf L1 L2 m bound st HE HV) as (r & st1 & E1 & E2 & Hlf). rewrite E1, E2.
       destruct r as [v| | | |]; try (fin; discriminate).
       fin. intros w E. eapply lf_dot_val; eauto.
     - (* binary operator *)
-      intros Hf L m bound st HI HB HV. cbn [first_order_body] in Hf. cbn [free_vars] in HV.
+      intros Hf L1 L2 m bound st HE HV. cbn [first_order_body] in Hf. cbn [free_vars] in HV.
       apply andb_prop in Hf as [Hf1 Hf2]. apply app_eq_nil in HV as [HV1 HV2].
       unfold Sim. cbn [subst Eval.evalE].
-      destruct (proj1 IHe1 Hf1 L m bound st HI HB HV1) as (r & st1 & E1 & E2 & Hlf). rewrite E1, E2.
+      destruct (proj1 IHe1 Hf1 L1 L2 m bound st HE HV1) as (r & st1 & E1 & E2 & Hlf). rewrite E1, E2.
       destruct r as [lv| | | |]; try (fin; discriminate).
-      destruct (proj1 IHe2 Hf2 L m bound st1 HI HB HV2) as (r2 & st2 & E3 & E4 & Hlf2). rewrite E3, E4.
+      destruct (proj1 IHe2 Hf2 L1 L2 m bound st1 HE HV2) as (r2 & st2 & E3 & E4 & Hlf2). rewrite E3, E4.
       destruct r2 as [rv| | | |]; try (fin; discriminate).
-      rewrite (Hbin_ext (apply (F1 L)) (apply (F2 L)) op lv rv st2 (Happ_ext _ _) (Hlf lv eq_refl) (Hlf2 rv eq_refl)).
-      destruct (binop_impl (apply (F2 L)) op lv rv st2) as [res st3] eqn:EB.
-      fin. intros v E; subst. exact (Hbin_lf (apply (F2 L)) op lv rv st2 v st3 (Happ_lf _) (Hlf lv eq_refl) (Hlf2 rv eq_refl) EB).
+      rewrite (Hbin_ext (apply (F1 L1)) (apply (F2 L2)) op lv rv st2 (Happ_ext _ _) (Hlf lv eq_refl) (Hlf2 rv eq_refl)).
+      destruct (binop_impl (apply (F2 L2)) op lv rv st2) as [res st3] eqn:EB.
+      fin. intros v E; subst. exact (Hbin_lf (apply (F2 L2)) op lv rv st2 v st3 (Happ_lf _) (Hlf lv eq_refl) (Hlf2 rv eq_refl) EB).
     - (* unary operator *)
-      intros Hf L m bound st HI HB HV. cbn [first_order_body] in Hf. cbn [free_vars] in HV.
+      intros Hf L1 L2 m bound st HE HV. cbn [first_order_body] in Hf. cbn [free_vars] in HV.
       unfold Sim. cbn [subst Eval.evalE].
-      destruct (proj1 IHe Hf L m bound st HI HB HV) as (r & st1 & E1 & E2 & Hlf). rewrite E1, E2.
+      destruct (proj1 IHe Hf L1 L2 m bound st HE HV) as (r & st1 & E1 & E2 & Hlf). rewrite E1, E2.
       destruct r as [v| | | |]; try (fin; discriminate).
       fin. intros w E. destruct op; [destruct (as_number v)|destruct (as_bool v)|destruct (as_bool v)];
         cbn in E; inversion E; reflexivity.
     - (* factorial *)
-      intros Hf L m bound st HI HB HV. cbn [first_order_body] in Hf. cbn [free_vars] in HV.
+      intros Hf L1 L2 m bound st HE HV. cbn [first_order_body] in Hf. cbn [free_vars] in HV.
       unfold Sim. cbn [subst Eval.evalE].
-      destruct (proj1 IHe Hf L m bound st HI HB HV) as (r & st1 & E1 & E2 & Hlf). rewrite E1, E2.
+      destruct (proj1 IHe Hf L1 L2 m bound st HE HV) as (r & st1 & E1 & E2 & Hlf). rewrite E1, E2.
       destruct r as [v| | | |]; try (fin; discriminate).
       fin. intros w E. destruct (as_number v); cbn in E; try discriminate. eapply lf_factorial; eauto.
     - (* spread *)
-      intros Hf L m bound st HI HB HV. cbn [first_order_body] in Hf. cbn [free_vars] in HV.
+      intros Hf L1 L2 m bound st HE HV. cbn [first_order_body] in Hf. cbn [free_vars] in HV.
       unfold Sim. cbn [subst Eval.evalE].
-      destruct (proj1 IHe Hf L m bound st HI HB HV) as (r & st1 & E1 & E2 & Hlf). rewrite E1, E2.
+      destruct (proj1 IHe Hf L1 L2 m bound st HE HV) as (r & st1 & E1 & E2 & Hlf). rewrite E1, E2.
       destruct r as [v| | | |]; try (fin; discriminate).
       fin. intros w E. eapply lf_spread_val; eauto.
   Qed.
 End Sound.
+
+(* ------------------------------------------------------------------ binding the parameters *)
+Lemma bind_params_none_iff ps : forall idx args acc acc',
+  bind_params ps idx args acc = None <-> bind_params ps idx args acc' = None.
+Proof.
+  induction ps as [|p ps IH]; intros idx args acc acc'; cbn [bind_params]; [split; discriminate|].
+  destruct p as [x|x|x]; [destruct (nth_error args idx); [apply IH|tauto]|apply IH|apply IH].
+Qed.
+Lemma lfs_nth_error (l : list value) k v : lfs l = true -> nth_error l k = Some v -> lf v = true.
+Proof.
+  revert k. induction l as [|x l IH]; intros [|k] H E; cbn in *; try discriminate;
+    apply andb_prop in H as [A B]; [inversion E; subst; exact A|eauto].
+Qed.
+Lemma lfs_skipn (l : list value) k : lfs l = true -> lfs (skipn k l) = true.
+Proof.
+  revert k. induction l as [|x l IH]; intros [|k] H; cbn in *; auto.
+  apply andb_prop in H as [A B]. auto.
+Qed.
+(* every parameter name ends up bound to a lambda-free value, the same in both runs *)
+Lemma bind_params_good ps : forall idx args acc acc' fr fr',
+  lfs args = true ->
+  bind_params ps idx args acc = Some fr -> bind_params ps idx args acc' = Some fr' ->
+  forall x, (In x (map arg_name ps) \/
+             (exists v, lookup_frame acc x = Some v /\ lookup_frame acc' x = Some v /\ lf v = true)) ->
+    exists v, lookup_frame fr x = Some v /\ lookup_frame fr' x = Some v /\ lf v = true.
+Proof.
+  induction ps as [|p ps IH]; intros idx args acc acc' fr fr' Ha H H' x Hx; cbn [bind_params] in *.
+  - inversion H; inversion H'; subst. destruct Hx as [[]|Hx]. exact Hx.
+  - assert (Hgen : forall pv, lf pv = true ->
+      In x (map arg_name ps) \/
+      (exists v, lookup_frame ((arg_name p, pv) :: acc) x = Some v /\
+                 lookup_frame ((arg_name p, pv) :: acc') x = Some v /\ lf v = true)).
+    { intros pv Hpv. cbn [map In] in Hx. cbn [lookup_frame].
+      destruct (String.eqb_spec x (arg_name p)) as [->|Hne].
+      - right. exists pv. auto.
+      - destruct Hx as [[E|Hin]|Hacc]; [congruence|left; exact Hin|right; exact Hacc]. }
+    destruct p as [y|y|y]; cbn [arg_name] in *.
+    + destruct (nth_error args idx) eqn:E; [|discriminate].
+      eapply IH; eauto. apply Hgen. eapply lfs_nth_error; eauto.
+    + eapply IH; eauto. apply Hgen. destruct (nth_error args idx) eqn:E; [eapply lfs_nth_error; eauto|reflexivity].
+    + eapply IH; eauto. apply Hgen. rewrite lf_list. now apply lfs_skipn.
+Qed.
+
+(* ------------------------------------------------------------------ the evaluator at depth d *)
+Section Top.
+  Variable release : bool.
+  Variable binop_impl : callback -> binop -> value -> value -> store -> outcome value * store.
+  Variable builtin_impl : callback -> builtin -> list value -> store -> outcome value * store.
+  Notation AD := (AD release binop_impl builtin_impl).
+
+  (* what is assumed of the operator / built-in implementations *)
+  Definition impl_lf_respecting : Prop :=
+    (forall cb cb' op l r st, cb_lf_equiv cb cb' -> lf l = true -> lf r = true ->
+       binop_impl cb op l r st = binop_impl cb' op l r st) /\
+    (forall cb op l r st v st', cb_lf_closed cb -> lf l = true -> lf r = true ->
+       binop_impl cb op l r st = (Ok v, st') -> lf v = true) /\
+    (forall cb cb' b args st, cb_lf_equiv cb cb' -> lfs args = true ->
+       builtin_impl cb b args st = builtin_impl cb' b args st) /\
+    (forall cb b args st v st', cb_lf_closed cb -> lfs args = true ->
+       builtin_impl cb b args st = (Ok v, st') -> lf v = true).
+  Hypothesis Himpl : impl_lf_respecting.
+
+  Lemma too_deep_closed : cb_lf_closed (fun _ f a s => call_too_deep f a s).
+  Proof. intros this f args st v st' _ _ _ E. unfold call_too_deep in E. destruct (check_arity _ _); discriminate. Qed.
+
+  Definition ADok (d : nat) : Prop :=
+    (forall fr fr', cb_lf_equiv (AD d fr) (AD d fr')) /\ (forall fr, cb_lf_closed (AD d fr)).
+
+  Lemma AD_lf_two : forall d, ADok d /\ ADok (S d).
+  Proof.
+    destruct Himpl as (_ & _ & Hbe & Hbl).
+    assert (Hstep : forall d' (cbf : frames -> callback),
+               (forall fr fr', cb_lf_equiv (cbf fr) (cbf fr')) -> (forall fr, cb_lf_closed (cbf fr)) ->
+               (forall fr, AD (S d') fr = apply_at builtin_impl (Some (evalE release binop_impl (AD d'), cbf fr)) fr) ->
+               ADok (S d')).
+    { intros d' cbf He Hc Hdef. split.
+      - intros fr fr' this f args st Hthis Hf Hargs. rewrite !Hdef. unfold apply_at.
+        destruct (negb (check_arity f (Datatypes.length args))); [reflexivity|].
+        destruct f; try reflexivity; try discriminate. cbn [call_passed]. apply Hbe; auto.
+      - intros fr this f args st v st' Hthis Hf Hargs. rewrite Hdef. unfold apply_at.
+        destruct (negb (check_arity f (Datatypes.length args))); [discriminate|].
+        destruct f; try discriminate. cbn [call_passed]. apply Hbl; auto. }
+    induction d as [|d [IH0 IH1]].
+    - split.
+      + split.
+        * intros fr fr' this f args st _ _ _. cbn. reflexivity.
+        * intros fr this f args st v st' _ _ _ E. cbn in E. unfold apply_at in E.
+          destruct (negb _); discriminate.
+      + apply (Hstep O (fun _ => fun _ f a s => call_too_deep f a s)).
+        * intros fr fr' this f args st _ _ _. reflexivity.
+        * intros fr. apply too_deep_closed.
+        * intros fr. reflexivity.
+    - split; [exact IH1|].
+      apply (Hstep (S d) (fun fr => AD d fr)).
+      + apply IH0.
+      + apply IH0.
+      + intros fr. reflexivity.
+  Qed.
+  Lemma AD_lf d : ADok d.
+  Proof. exact (proj1 (AD_lf_two d)). Qed.
+
+  (* P2, first-order part: a call of the original closure and a call of the reloaded emission
+     give the same outcome and the same store — at every depth, from any two call sites *)
+  Theorem emit_equiv_first_order : forall nanfix d fr fr' this this' id id' params body sv args st,
+    first_order_body body = true ->
+    free_vars body (map arg_name params ++ map fst sv) = [] ->
+    forallb (fun kv => emittable_gen (snd kv)) sv = true ->
+    (forall x, special_name x = true -> rec_get sv x = None) ->
+    (forall x, In x (map arg_name params) -> rec_get sv x = None) ->
+    rec_get sv "inputs"%string = None ->
+    (forall n, lam_name st id = Some n -> rec_get sv n = None) ->
+    lfs args = true ->
+    AD d fr this (VLam id params body sv) args st =
+    AD d fr' this' (VLam id' params (subst true (scope_map nanfix true sv) body) []) args st.
+  Proof.
+    intros nanfix d fr fr' this this' id id' params body sv args st
+           Hfob Hfv Hem Hsp Hpar Hinp Hself Hargs.
+    destruct d as [|d']; [reflexivity|].
+    cbn [Eval.AD]. unfold apply_at. cbn [check_arity accepts fn_arity].
+    destruct (negb (can_accept (lambda_arity params) (Datatypes.length args))); [reflexivity|].
+    cbn [call_passed].
+    set (acc := (match lookup fr "inputs" with Some i => [("inputs"%string, i)] | None => [] end ++
+                 match lam_name st id with Some n => [(n, this)] | None => [] end)).
+    set (acc' := (match lookup fr' "inputs" with Some i => [("inputs"%string, i)] | None => [] end ++
+                  match lam_name st id' with Some n => [(n, this')] | None => [] end)).
+    destruct (bind_params params 0 args acc) as [local|] eqn:EB.
+    2:{ apply (bind_params_none_iff params 0 args acc acc') in EB. rewrite EB. reflexivity. }
+    destruct (bind_params params 0 args acc') as [local'|] eqn:EB'.
+    2:{ apply (bind_params_none_iff params 0 args acc' acc) in EB'. congruence. }
+    destruct Himpl as (Hb1 & Hb2 & _ & _).
+    destruct (AD_lf d') as [Hae Hac].
+    (* names of the local frame that are not parameters are not captured *)
+    assert (Hacc : forall x, rec_get sv x <> None -> lookup_frame acc x = None).
+    { intros x Hx. unfold acc. destruct (lookup fr "inputs"); destruct (lam_name st id) eqn:En; cbn;
+        repeat match goal with |- context [String.eqb x ?y] => destruct (String.eqb_spec x y); subst end;
+        try reflexivity; try congruence; exfalso; apply Hx; auto. }
+    set (bound := (map arg_name params ++ map fst sv)%list).
+    change (free_vars body bound = []) in Hfv.
+    assert (Hbound : forall x, mem x bound = true -> In x (map arg_name params) \/ rec_get sv x <> None).
+    { intros x Hx. unfold bound, mem in Hx. rewrite existsb_app in Hx. apply orb_prop in Hx as [Hx|Hx].
+      - left. apply existsb_exists in Hx as (y & Hy & E). apply String.eqb_eq in E. now subst.
+      - right. apply existsb_exists in Hx as (y & Hy & E). apply String.eqb_eq in E. subst y.
+        intros Hn. apply rec_get_None_notin in Hn. contradiction. }
+    assert (HE : Env nanfix sv bound [(FOwned, local)] [(FOwned, local')] (scope_map nanfix true sv)).
+    { repeat split.
+      - intros x Hx. rewrite scope_map_get. cbn [lookup].
+        destruct (Hbound x Hx) as [Hin|Hsv].
+        + destruct (bind_params_good params 0 args acc acc' local local' Hargs EB EB' x (or_introl Hin))
+            as (v & E1 & _ & _). rewrite E1. rewrite (Hpar x Hin). reflexivity.
+        + destruct (lookup_frame local x) eqn:EL; [|reflexivity].
+          assert (Hnp : ~ In x (map arg_name params)) by (intros Hin; apply Hsv; auto).
+          rewrite (bind_params_keeps params 0 args acc local x EB Hnp), (Hacc x Hsv) in EL. discriminate.
+      - intros x Hx. rewrite scope_map_get, (Hsp x Hx). reflexivity.
+      - intros x a. rewrite scope_map_get. destruct (rec_get sv x); cbn; [|discriminate].
+        intros E; inversion E. eauto.
+      - intros x Hx. cbn [lookup]. destruct (Hbound x Hx) as [Hin|Hsv].
+        + destruct (bind_params_good params 0 args acc acc' local local' Hargs EB EB' x (or_introl Hin))
+            as (v & E1 & _ & Hv). left. exists v. rewrite E1. auto.
+        + destruct (in_dec string_dec x (map arg_name params)) as [Hin|Hnp].
+          * destruct (bind_params_good params 0 args acc acc' local local' Hargs EB EB' x (or_introl Hin))
+              as (v & E1 & _ & Hv). left. exists v. rewrite E1. auto.
+          * right. rewrite (bind_params_keeps params 0 args acc local x EB Hnp), (Hacc x Hsv). auto.
+      - intros x v Hx. cbn [lookup]. destruct (lookup_frame local x) eqn:EL; [|discriminate].
+        intros E; inversion E; subst v0.
+        destruct (in_dec string_dec x (map arg_name params)) as [Hin|Hnp].
+        + destruct (bind_params_good params 0 args acc acc' local local' Hargs EB EB' x (or_introl Hin))
+            as (w & E1 & E2 & _). rewrite E2. congruence.
+        + destruct (Hbound x Hx) as [Hin|Hsv]; [contradiction|].
+          rewrite (bind_params_keeps params 0 args acc local x EB Hnp), (Hacc x Hsv) in EL. discriminate. }
+    pose proof (fun R1 R2 => proj1 (sim_all release binop_impl (AD d') Hb1 Hb2 Hae Hac nanfix sv Hem R1 R2 body)) as HQ.
+    unfold Q in HQ.
+    assert (HEsame : Env nanfix sv bound [(FOwned, local)] [(FOwned, local)] (scope_map nanfix true sv)).
+    { destruct HE as (A & B & C & D). repeat split; try apply B; auto. intros x v _ E; exact E. }
+    destruct sv as [|kv0 sv0] eqn:Esv.
+    - (* nothing captured: no shared frame; the inlined body is the body *)
+      cbn [scope_map map] in *. rewrite subst_nil.
+      destruct (HQ fr fr Hfob _ _ _ bound st HEsame Hfv) as (r & st1 & E1 & E2 & _).
+      destruct (HQ fr fr' Hfob _ _ _ bound st HE Hfv) as (r' & st1' & E1' & E2' & _).
+      rewrite subst_nil in E2, E2'. cbn [app] in *. rewrite E2, E2'. congruence.
+    - rewrite <- Esv in *.
+      destruct (HQ fr fr' Hfob _ _ _ bound st HE Hfv) as (r & st1 & E1 & E2 & _).
+      cbn [app] in E1, E2. rewrite Esv in E1 at 2. rewrite E1, E2. reflexivity.
+  Qed.
+End Top.
+
+(* ------------------------------------------------------------------ refutations (current code) *)
+Require Import Blots.EvalInst Blots.Program.
+
+(* F50: k = 5; f = x => do { y = k; k = x; return k + y }.  The current inlining (dofix = false)
+   replaces the do-block local k by the captured 5 in `return k + y`. *)
+Definition f50_body : expr :=
+  EDo [Cm [] (EAssign "y" (EId "k")) None; Cm [] (EAssign "k" (EId "x")) None]
+      (Cm [] (EBin Add (EId "k") (EId "y")) None).
+Definition f50_fun : value := VLam 0 [AReq "x"%string] f50_body [("k"%string, VNum (nb 0x4014000000000000))].
+Definition call_on (f : value) (arg : value) : outcome value :=
+  fst (AD true binop_impl builtin_impl LIMIT [(FOwned, [])] f f [arg] [None; None]).
+Definition reloaded (nanfix dofix : bool) (f : value) : value :=
+  match emit_ast nanfix dofix f with
+  | Some e => match reload_ast 1 e with Some v => v | None => VNull end
+  | None => VNull
+  end.
+
+Lemma do_shadow_current_refuted :
+  closed_after_capture f50_fun = true /\
+  call_on f50_fun (VNum (nb 0x3ff0000000000000)) = Ok (VNum (nb 0x4018000000000000)) /\
+  call_on (reloaded false false f50_fun) (VNum (nb 0x3ff0000000000000)) = Ok (VNum (nb 0x4024000000000000)).
+Proof. vm_compute. repeat split; reflexivity. Qed.
+(* ... and the repaired inlining (dofix = true) gives the original's 6 *)
+Lemma do_shadow_fixed_witness :
+  call_on (reloaded true true f50_fun) (VNum (nb 0x3ff0000000000000)) = Ok (VNum (nb 0x4018000000000000)).
+Proof. vm_compute. reflexivity. Qed.
+
+(* F15: the text `-5!` is read as -(5!); the inlined value is (-5)! *)
+Lemma neg_postfix_refuted :
+  fst (eval_release ([], [(FOwned, [])]) (EUn Negate (EFact (ENum (nb 0x4014000000000000)))))
+    = Ok (VNum (nb 0xc05e000000000000)) /\
+  fst (eval_release ([], [(FOwned, [])]) (EFact (EUn Negate (ENum (nb 0x4014000000000000))))) = Err.
+Proof. vm_compute. split; reflexivity. Qed.
+
+(* NaN and strings with both quote characters: their repaired literals are operator expressions,
+   evaluated by the transcribed `/` and `+` *)
+Lemma lit_nan_inst : forall c, eval_release c (value_to_ast true true (VNum nnan)) = (Ok (VNum nnan), c).
+Proof. intros [st fr]. vm_compute. reflexivity. Qed.
+Lemma lit_both_quotes_inst_example : forall c,
+  eval_release c (value_to_ast true true (VStr (String dq (String sq "x")))) =
+  (Ok (VStr (String dq (String sq "x"))), c).
+Proof. intros [st fr]. vm_compute. reflexivity. Qed.
+
+(* the hypothesis of emit_equiv_first_order is satisfiable by implementations that do call
+   their callback: `+` on numbers, and a built-in that applies its second argument to its first *)
+Definition ex_binop (cb : callback) (op : binop) (l r : value) (st : store) : outcome value * store :=
+  match op, l, r with
+  | Add, VNum a, VNum b => (Ok (VNum (nadd a b)), st)
+  | Into, x, f => cb f f [x] st
+  | _, _, _ => (Err, st)
+  end.
+Definition ex_builtin (cb : callback) (b : builtin) (args : list value) (st : store) : outcome value * store :=
+  match args with
+  | [x; f] => cb f f [x] st
+  | _ => (Err, st)
+  end.
+Lemma impl_lf_respecting_example : impl_lf_respecting ex_binop ex_builtin.
+Proof.
+  repeat split.
+  - intros cb cb' op l r st H Hl Hr. destruct op; try reflexivity.
+    cbn. apply H; auto. cbn. now rewrite Hl.
+  - intros cb op l r st v st' H Hl Hr E. destruct op; try discriminate.
+    + destruct l; try discriminate. destruct r; try discriminate. inversion E. reflexivity.
+    + cbn in E. eapply H; eauto. cbn. now rewrite Hl.
+  - intros cb cb' b args st H Ha. destruct args as [|x [|f [|? ?]]]; try reflexivity.
+    cbn in *. apply andb_prop in Ha as [A B]. apply andb_prop in B as [B _]. apply H; auto. cbn. now rewrite A.
+  - intros cb b args st v st' H Ha E. destruct args as [|x [|f [|? ?]]]; try discriminate.
+    cbn in *. apply andb_prop in Ha as [A B]. apply andb_prop in B as [B _]. eapply H; eauto. cbn. now rewrite A.
+Qed.
